@@ -82,6 +82,20 @@ def run(ctx):
         if i % 4 == 0:
             for c in corrupt(ctx.rng, data, ops):
                 inputs.append({"hex": c.hex(), "named": named, "tag": "corrupted"})
+    O = lambda n: {"o": n}  # noqa: E731,E741
+    from ..asm import const_op as K
+    for m, n in DANGEROUS:       # every vocabulary entry through every global-resolving / call-making opcode, always
+        G = {"o": "GLOBAL", "m": m, "n": n}
+        SG = [K(m), K(n), O("STACK_GLOBAL")]
+        for ops in ([G, O("STOP")], SG + [O("STOP")], [O("MARK"), {"o": "INST", "m": m, "n": n}, O("STOP")],
+                    [G, O("EMPTY_TUPLE"), O("REDUCE"), O("STOP")], SG + [O("EMPTY_TUPLE"), O("REDUCE"), O("STOP")],
+                    [O("MARK"), G, K(1), O("OBJ"), O("STOP")], [G, O("EMPTY_TUPLE"), O("NEWOBJ"), O("STOP")],
+                    SG + [O("EMPTY_TUPLE"), O("EMPTY_DICT"), O("NEWOBJ_EX"), O("EMPTY_DICT"), O("BUILD"), O("STOP")],
+                    [{"o": "PROTO", "a": 4}] + SG + [O("MEMOIZE"), O("POP"), K(0), O("STOP")]):
+            try:
+                inputs.append({"hex": assemble(ops).hex(), "named": named_of(ops), "tag": "canonical"})
+            except Exception:  # noqa: BLE001
+                pass
     for data, tag in genvalues.natural_pickles(ctx.rng, 40 if ctx.quick else 600):
         if len(data) < 5000:
             inputs.append({"hex": data.hex(), "named": ["verif_nat"], "tag": "natural"})
